@@ -515,6 +515,149 @@ def gen_entries(rng, pre, wellformed=True):
     return out
 
 
+# ---- packages, builds and re-merges -------------------------------------------------------------------------
+# sibling names that are string prefixes of each other (python3.1 / python3.11, man1 / man1p), a name sorting
+# between "x" and "x/" ("a-b"), odd names
+PKG_NAMES = ["bin", "lib", "lib64", "man1", "man1p", "foo", "foo2", "a", "a2", "a-b", "conf", ".keep", "x y", "ü", "doc"]
+
+
+def gen_package(rng, top=(), nmax=7, src_file=0.7, twins=0.0):
+    """a package image: a tree-shaped contents set with every parent directory recorded, sibling names sharing
+    prefixes, empty directories, files (mostly with an on-disk source, as ${D} has), symlinks, fifos"""
+    ents = {}
+    dirs = [tuple(top)]
+    for i in range(1, len(top) + 1):
+        uid, gid = gen_owner(rng)
+        ents[tuple(top[:i])] = {"p": list(top[:i]), "k": "dir", "mode": 0o755, "uid": uid, "gid": gid, "mtime": 1111}
+    for _ in range(rng.randint(2, nmax)):
+        parent = rng.choice(dirs)
+        if len(parent) - len(top) >= 3:
+            continue
+        p = parent + (rng.choice(PKG_NAMES),)
+        if p in ents:
+            continue
+        uid, gid = gen_owner(rng)
+        e = {"p": list(p), "mode": rng.choice([0o644, 0o755, 0o600, 0o4711]), "uid": uid, "gid": gid,
+             "mtime": rng.choice([7, 1234, 31337, 999999999])}
+        k = rng.random()
+        if k < 0.38:
+            e.update(k="dir", mode=rng.choice([0o755, 0o700, 0o775]))
+            dirs.append(p)
+            if rng.random() < twins:
+                # a sibling whose name extends this one (man1 / man1p, python3.1 / python3.11), both populated
+                q = parent + (p[-1] + rng.choice(["p", "2", "1", "-b", ".d", " x"]),)
+                if q not in ents:
+                    ents[q] = dict(e, p=list(q))
+                    dirs.append(q)
+                    for d_ in (p, q):
+                        for nm in rng.sample(PKG_NAMES, rng.randint(1, 2)):
+                            f = d_ + (nm,)
+                            if f not in ents:
+                                ents[f] = {"p": list(f), "k": "reg", "data": gen_data(rng), "key": None, "src": "mem", "mode": 0o644,
+                                           "uid": uid, "gid": gid, "mtime": 1234}
+        elif k < 0.82:
+            e.update(k="reg", data=gen_data(rng), key=None, src="file" if rng.random() < src_file else "mem")
+        elif k < 0.95:
+            e.update(k="sym", target=rng.choice(["a", "../b", "nowhere", "foo"]), mode=0o777)
+        else:
+            e.update(k="fifo")
+        ents[p] = e
+    out = list(ents.values())
+    rng.shuffle(out)
+    return out
+
+
+def nodes_of(entries):
+    """the live nodes a completed merge of `entries` leaves behind (parents first)"""
+    out = []
+    for e in sorted(entries, key=lambda e: len(e["p"])):
+        nd = {"p": list(e["p"]), "uid": e["uid"], "gid": e["gid"], "mtime": e["mtime"], "mode": e["mode"]}
+        nd.update({"dir": dict(k="dir"), "reg": dict(k="file", data=e.get("data", "")),
+                   "sym": dict(k="sym", target=e.get("target", "x"), mode=0o777), "fifo": dict(k="fifo")}[e["k"]])
+        out.append(nd)
+    return out
+
+
+def next_build(rng, entries, top=()):
+    """the next build of the same package: most entries come back — unchanged, or with the same data and mtime but
+    other ownership and/or permissions, or new data of the same / another size, or another mtime, or another type —
+    some are dropped, some are new"""
+    out = []
+    dropped = set()
+    for e in entries:
+        e = dict(e)
+        p = tuple(e["p"])
+        if any(p[:i] in dropped for i in range(1, len(p))):
+            continue
+        if e["k"] == "dir":
+            r = rng.random()
+            if r < 0.08 and len(p) > len(top):
+                dropped.add(p)
+                continue
+            if r < 0.3:
+                e["uid"], e["gid"] = gen_owner(rng)
+                e["mode"] = rng.choice([0o755, 0o700, 0o775])
+            out.append(e)
+            continue
+        r = rng.random()
+        if r < 0.2:
+            pass
+        elif r < 0.45:
+            e["uid"], e["gid"] = gen_owner(rng)
+            e["mode"] = rng.choice([m for m in (0o644, 0o755, 0o600, 0o4711, 0o700) if m != e["mode"]])
+        elif r < 0.52:
+            e["uid"], e["gid"] = gen_owner(rng)
+        elif r < 0.59:
+            e["mode"] = rng.choice([0o644, 0o755, 0o600, 0o700])
+        elif r < 0.66:
+            e["mtime"] = e["mtime"] + 1
+        elif r < 0.74 and e["k"] == "reg" and e["data"]:
+            e["data"] = bytes((b + 1) % 256 for b in bytes.fromhex(e["data"])).hex()      # same size, same mtime
+        elif r < 0.84 and e["k"] == "reg":
+            e["data"] = gen_data(rng)
+            e["mtime"] = rng.choice([e["mtime"], 4242])
+        elif r < 0.9:
+            e.update(k=rng.choice(["sym", "fifo", "reg"]))
+            if e["k"] == "sym":
+                e.update(target="nowhere", mode=0o777)
+            if e["k"] == "reg":
+                e.update(data=gen_data(rng), key=None, src="file")
+                e["mode"] = e["mode"] if e["mode"] != 0o777 else 0o644
+        else:
+            dropped.add(p)
+            continue
+        out.append(e)
+    have = {tuple(e["p"]) for e in out}
+    dirs = [tuple(e["p"]) for e in out if e["k"] == "dir"] or [tuple(top)]
+    for _ in range(rng.randint(0, 2)):
+        p = rng.choice(dirs) + (rng.choice(PKG_NAMES),)
+        if p in have or p in dropped:
+            continue
+        uid, gid = gen_owner(rng)
+        have.add(p)
+        out.append({"p": list(p), "k": "reg", "data": gen_data(rng), "key": None, "src": "file", "mode": 0o644,
+                    "uid": uid, "gid": gid, "mtime": 31337})
+    rng.shuffle(out)
+    return out
+
+
+def gen_remerge(rng, nmax=5):
+    """(pre tree, entries): the root already holds an earlier build of the package (plus unrelated paths)"""
+    b1 = gen_package(rng, nmax=nmax)
+    pre = nodes_of(b1)
+    have = {tuple(n["p"]) for n in pre}
+    for nd in gen_pre(rng, size=rng.randint(0, 3)):
+        p = tuple(nd["p"])
+        if p in have or any(p[:i] in have and next(n for n in pre if tuple(n["p"]) == p[:i])["k"] != "dir" for i in range(1, len(p))) \
+                or any(p[:i] not in have for i in range(1, len(p))):
+            continue
+        if nd.get("link_to") is not None:
+            continue
+        have.add(p)
+        pre.append(nd)
+    return pre, next_build(rng, b1)
+
+
 def entry_json(e):
     d = {"p": e["p"], "k": e["k"], "mode": 0o777 if e["k"] == "sym" else e["mode"], "uid": e["uid"], "gid": e["gid"], "mtime": e["mtime"]}
     if e["k"] == "reg":
@@ -885,6 +1028,11 @@ def run(ctx):
         cases = [(c["pre"], c["entries"], c["offset"], "replay") for c in ctx.replay_cases if "entries" in c] + cases
     n = ctx.n(800, 9000)
     for i in range(n):
+        if rng.random() < 0.25:
+            pre, ents = gen_remerge(rng, nmax=7)
+            if ents:
+                cases.append((pre, ents, rng.random() < 0.5, "remerge"))
+            continue
         pre = gen_pre(rng)
         wf = rng.random() < 0.85
         ents = gen_entries(rng, pre, wellformed=wf)
